@@ -62,6 +62,10 @@ CHECKS = {
    text='PanelDraws.tla (non-panel mode) defines the Monte-Carlo operator as the mean over draws with every named draw variable replaced by the observation r-th draw of its own series, the series produced by the generator registered for its type, the table indexed [observation][draw][rank of name]; Calculus.tla defines Derive (partial derivative with respect to a parameter or a variable) and Integrate (Gaussian moments) on polynomial families; TLC checks the model identities and emits every case with its exact expected value; replayed into BIOGEME.simulate, calculate_likelihood, get_value_c, with the draw table crossing the engine boundary compared entry by entry; reproducibility under a non-zero seed is checked with native types.',
    note='trusted: TLC; Integrate compared at 1e-6 (quadrature accuracy is the engine); integrand families are those of the spec',
    technique='TLA+ specs PanelDraws/Calculus + TLC case generation, spec->code replay incl. engine-boundary draw table', ref='5 C10'),
+ 'C07': dict(
+   text='Estimation.tla states a concave separable model with bounds and fixed parameters, its constrained maximiser (clip of the mean), exact LL / gradient / Hessian / BHHH and the KKT conditions; TLC checks OptimumSound and LocallyBest for every bound configuration x start x fixed pattern x algorithm and emits the expected outcome; each behaviour is one real estimate() (all 9 algorithm names) checked for feasibility, monotonicity, agreement of the reported figures with the likelihood at the reported point, KKT, the maximum value, write-back of starting values by name; the dialogue between estimation object, minimised function and optimiser is recorded by wrappers and validated by EstimationTrace.tla (phase order, sign flip of the same point, determinism, requests inside bounds, final evaluation at the returned point, results = final evaluation).',
+   note='trusted: TLC; bit-for-bit comparisons (negation, identity of vectors) are computed by the driver and judged by the trace spec; estimates compared at 5e-4, maximum value at 1e-6; concave models only',
+   technique='TLA+ specs Estimation/EstimationTrace + TLC, spec->code replay of estimations and code->spec validation of the optimiser dialogue', ref='5 C07'),
 }
 
 def cmd(pid, tier):
